@@ -1,0 +1,27 @@
+//go:build verif
+
+// Contracts for govc (see /verif/DESIGN.md). Comment-only; compiled only with -tags verif.
+
+package rinline
+
+//@ property C10 C07
+
+// inlmax: the refinement of base.rwmax for the inline rewriter — header + field value + separator + what the next
+// rewriter announces, when the inlined field is non-empty
+//@ pure func validinline(rw *inlineRewriter, record *base.LogRecord) bool :=
+//@     rw != nil && record != nil && rw.next != nil && 0 <= rw.fieldLocator && rw.fieldLocator < len(record.Fields)
+//@ pure func inlmax(rw *inlineRewriter, value string, record *base.LogRecord) int :=
+//@     len(record.Fields[rw.fieldLocator]) > 0
+//@       ? len(rw.header) + len(record.Fields[rw.fieldLocator]) + len(rw.separator) + base.rwmax(rw.next, value, record)
+//@       : base.rwmax(rw.next, value, record)
+
+//@ func (rw *inlineRewriter) MaxFieldLength(value string, record *base.LogRecord) int
+//@   requires validinline(rw, record)
+//@   ensures  result == inlmax(rw, value, record) && result >= 0
+//@ func (rw *inlineRewriter) WriteFieldBody(value string, record *base.LogRecord, buffer []byte) int
+//@   requires validinline(rw, record) && len(buffer) >= inlmax(rw, value, record)
+//@   modifies buffer[: inlmax(rw, value, record)], record.Unescaped
+//@   ensures  0 <= result && result <= inlmax(rw, value, record)
+//@   ensures[prefix] len(old(record.Fields[rw.fieldLocator])) > 0 ==>
+//@        result >= len(rw.header) + len(old(record.Fields[rw.fieldLocator])) + len(rw.separator)
+//@     && (forall i int :: 0 <= i && i < len(rw.header) ==> buffer[i] == rw.header[i])
